@@ -9,8 +9,8 @@
 (iv)  every document of 3 (thorough: up to 4) short lines over a line alphabet x 7 containers (incl. lazy continuation)
       x every line ending in {newline, backslash hard break, two-space hard break}.
 Oracle: returns str without raising, within the per-case watchdog; Markdown-mode output ends with a newline;
-no NUL / C0 control / internal placeholder that was not in the input; whitespace-only lines inside output code
-blocks carry no trailing spaces.
+no NUL / C0 control / internal placeholder that was not in the input; no ADDED trailing spaces on whitespace-only
+lines inside code blocks (the output has no more such lines than the input has whitespace-only lines with trailing blanks).
 """
 from __future__ import annotations
 
@@ -57,19 +57,29 @@ def wellformed(text, out, opts):
     if "\x00AC" in out and "\x00AC" not in text:
         v.append(("placeholder-leaked", {"input": text[:200], "output": out[:200]}))
     if not opts.get("plaintext"):
-        fence = None
-        for ln in out.split("\n"):
-            core_ln = re.sub(r"^[ >]*", "", ln)
-            m = re.match(r"^(`{3,}|~{3,})", core_ln)
-            if fence is None:
-                if m:
-                    fence = m.group(1)
-            elif m and core_ln.strip() == m.group(1) and m.group(1)[0] == fence[0] and len(m.group(1)) >= len(fence):
-                fence = None
-            elif core_ln.strip() == "" and ln != ln.rstrip():
-                v.append(("code-blank-line-has-trailing-space", {"input": text[:200], "line": ln}))
-                break
+        # "no ADDED trailing spaces": more whitespace-only code lines with trailing blanks in the output than the input has
+        # whitespace-only lines with trailing blanks at all
+        n_out, sample = _blank_code_lines_with_trailing_space(out)
+        n_in = sum(1 for ln in text.split("\n") if re.sub(r"^[ >]*", "", ln).strip() == "" and ln != ln.rstrip())
+        if n_out > n_in:
+            v.append(("code-blank-line-has-trailing-space", {"input": text[:200], "line": sample, "in_input": n_in, "in_output": n_out}))
     return v
+
+
+def _blank_code_lines_with_trailing_space(out):
+    n, sample, fence = 0, None, None
+    for ln in out.split("\n"):
+        core_ln = re.sub(r"^[ >]*", "", ln)
+        m = re.match(r"^(`{3,}|~{3,})", core_ln)
+        if fence is None:
+            if m:
+                fence = m.group(1)
+        elif m and core_ln.strip() == m.group(1) and m.group(1)[0] == fence[0] and len(m.group(1)) >= len(fence):
+            fence = None
+        elif core_ln.strip() == "" and ln != ln.rstrip():
+            n += 1
+            sample = sample or ln
+    return n, sample
 
 
 def run_all(text, optsets=None):
